@@ -1387,7 +1387,7 @@ namespace CDNS {
         BlockTable<MalformedMessageData> m_malformed_message_data; //!< MalformedMessageData Block table
 
         std::vector<QueryResponse> m_query_responses; //!< Array of QueryResponse records
-        std::unordered_map<AddressEventCount, uint64_t, CDNS::hash<AddressEventCount>> m_address_event_counts; //!< Array of Address events
+        std::unordered_multimap<AddressEventCount, uint64_t, CDNS::hash<AddressEventCount>> m_address_event_counts; //!< Array of Address events
         std::vector<MalformedMessage> m_malformed_messages; // !< Array of Malformed messages
 
         protected:
@@ -1527,7 +1527,7 @@ namespace CDNS {
         std::vector<GenericResourceRecord> fill_generic_rr_list(std::vector<index_t>& list);
 
         uint64_t m_qr_read;
-        std::unordered_map<AddressEventCount, uint64_t, CDNS::hash<AddressEventCount>>::iterator m_aec_read;
+        std::unordered_multimap<AddressEventCount, uint64_t, CDNS::hash<AddressEventCount>>::iterator m_aec_read;
         uint64_t m_mm_read;
     };
 }
